@@ -6,6 +6,7 @@
 //!     then for every thread count n: ceil(n/2) threads render the SAME shared trees (each in its own order)
 //!     while the other threads parse the documents again (each in its own order) - all with ONE shared
 //!     `Arc<fontdb::Database>`.  Every disagreement with the baseline is printed as `MISMATCH\t{..}`.
+//! `c06-history <k>`  stdin as above; fresh-thread render vs k renders in a row on one long-lived thread (see `history`)
 use crate::dump::esc;
 use crate::util;
 use std::io::BufRead;
@@ -265,6 +266,108 @@ fn e2e(args: &[String]) {
     );
 }
 
+/// `c06-history <k>`: stdin `idx\topts\tdoc` lines.  The search engine for "state that outlives a call":
+/// every document is parsed once; its tree is rendered (a) on a FRESH thread (= baseline, printed as `idx\t{..}`),
+/// (b) `k` times in a row on ONE long-lived thread that renders all documents one after the other (sequence of renders
+/// on one thread; used thread vs fresh thread), (c) once more on a fresh thread at the end (used process vs fresh thread).
+fn history(args: &[String]) {
+    util::install_panic_hook();
+    let k: usize = args.first().and_then(|s| s.parse().ok()).unwrap_or(10);
+    let mut items = Vec::new();
+    for line in std::io::stdin().lock().lines().map_while(Result::ok) {
+        let f: Vec<&str> = line.splitn(3, '\t').collect();
+        if f.len() == 3 {
+            items.push(Item { idx: f[0].to_string(), opts: f[1].to_string(), doc: f[2].to_string() });
+        }
+    }
+    let db = util::make_fontdb();
+    let mut trees: Vec<Option<usvg::Tree>> = Vec::new();
+    for it in &items {
+        let (spec, doc, db_) = (it.opts.clone(), it.doc.clone(), db.clone());
+        trees.push(match guarded(move || parse_shared(&spec, &doc, &db_)) {
+            Ok(Ok(t)) => Some(t),
+            _ => None,
+        });
+    }
+    let render = |t: &usvg::Tree| -> String {
+        let tr = std::panic::AssertUnwindSafe(t);
+        match guarded(move || pixel_digest(&tr)) {
+            Ok((d, w, h)) => format!("{}:{}x{}", d, w, h),
+            Err(p) => p,
+        }
+    };
+    let on_fresh_thread = |t: &usvg::Tree| -> String {
+        std::thread::scope(|sc| {
+            std::thread::Builder::new()
+                .stack_size(16 << 20)
+                .spawn_scoped(sc, || {
+                    util::install_panic_hook();
+                    render(t)
+                })
+                .unwrap()
+                .join()
+                .unwrap_or_else(|_| "join-failed".to_string())
+        })
+    };
+    let mut base: Vec<String> = Vec::new();
+    for (it, t) in items.iter().zip(&trees) {
+        let d = match t {
+            Some(t) => on_fresh_thread(t),
+            None => "-".to_string(),
+        };
+        println!("{}\t{{\"p\":{}}}", it.idx, esc(&d));
+        base.push(d);
+    }
+    let mut comparisons = 0usize;
+    let mut mismatches = 0usize;
+    let found: Vec<(usize, String, String)> = std::thread::scope(|sc| {
+        std::thread::Builder::new()
+            .stack_size(16 << 20)
+            .spawn_scoped(sc, || {
+                util::install_panic_hook();
+                let mut found = Vec::new();
+                for (i, t) in trees.iter().enumerate() {
+                    if let Some(t) = t {
+                        for j in 0..k {
+                            let d = render(t);
+                            if d != base[i] {
+                                found.push((i, format!("history/used-thread/render#{}", j), d));
+                                break;
+                            }
+                        }
+                    }
+                }
+                found
+            })
+            .unwrap()
+            .join()
+            .unwrap_or_default()
+    });
+    comparisons += trees.iter().filter(|t| t.is_some()).count() * k;
+    let mut all = found;
+    for (i, t) in trees.iter().enumerate() {
+        if let Some(t) = t {
+            comparisons += 1;
+            let d = on_fresh_thread(t);
+            if d != base[i] {
+                all.push((i, "history/fresh-thread-in-used-process".to_string(), d));
+            }
+        }
+    }
+    for (i, phase, got) in all {
+        mismatches += 1;
+        println!(
+            "MISMATCH\t{{\"phase\":{},\"idx\":{},\"what\":\"pixels\",\"base\":{},\"got\":{}}}",
+            esc(&phase), esc(&items[i].idx), esc(&base[i]), esc(&got)
+        );
+    }
+    let parsed = trees.iter().filter(|t| t.is_some()).count();
+    println!(
+        "DONE\t{{\"items\":{},\"parsed\":{},\"comparisons\":{},\"mismatches\":{}}}",
+        items.len(), parsed, comparisons, mismatches
+    );
+}
+
 pub fn dispatch(op: &str, args: &[String]) -> bool {
     match op {
         "c06-digest" => {
@@ -273,6 +376,10 @@ pub fn dispatch(op: &str, args: &[String]) -> bool {
         }
         "c06-e2e" => {
             e2e(args);
+            true
+        }
+        "c06-history" => {
+            history(args);
             true
         }
         _ => false,
